@@ -66,7 +66,20 @@ func clip(s string) string {
 
 func checkAlloc(t ev.TB, test string, pl payload) {
 	p, inputs := pl.Program, pl.Inputs
-	base, why := refx.Stable(p, inputs, ref.DefaultConfig())
+	base, why := refx.StableBy(p, inputs, ref.DefaultConfig(), refx.KeyWithAllocs)
+	// failf reports a violation unless the program turns out to be outside
+	// the domain: the filter above tries four fixed map orders; before a
+	// mismatch is reported the reference enumerates every order of every map
+	// traversal (under the configuration the mismatch was observed with), and
+	// a run whose outcome or allocation count depends on the order is discarded
+	cfgCur := ref.DefaultConfig()
+	failf := func(format string, args ...interface{}) {
+		if refx.OrderDependentBy(p, inputs, ref.DefaultConfig(), refx.KeyWithAllocs) || refx.OrderDependentBy(p, inputs, cfgCur, refx.KeyWithAllocs) {
+			ev.Discard("excluded:capacity-or-map-order-dependent (exhaustive enumeration after a mismatch)")
+			return
+		}
+		ev.Fail(t, test, pl, format, args...)
+	}
 	if why != "" {
 		ev.Discard(why)
 		return
@@ -95,7 +108,7 @@ func checkAlloc(t ev.TB, test string, pl payload) {
 		return
 	}
 	if un.Allocs != A {
-		ev.Fail(t, test, pl, "the run performs %d tracked allocations by the documented rule (one per operator result, unary -/^ result, array/map literal, error(), immutable() of a container, slice, builtin/host call result, closure creation, iterator creation) but the VM counted %d\n--- source ---\n%s",
+		failf("the run performs %d tracked allocations by the documented rule (one per operator result, unary -/^ result, array/map literal, error(), immutable() of a container, slice, builtin/host call result, closure creation, iterator creation) but the VM counted %d\n--- source ---\n%s",
 			A, un.Allocs, clip(src))
 		return
 	}
@@ -104,6 +117,7 @@ func checkAlloc(t ev.TB, test string, pl payload) {
 	for _, n := range budgets {
 		cfg := ref.DefaultConfig()
 		cfg.MaxAllocs = n
+		cfgCur = cfg
 		// intermediate states may depend on map order / capacity even when the
 		// final result does not: compare them only when every policy agrees
 		want, unstable := refx.Stable(p, inputs, cfg)
@@ -112,26 +126,26 @@ func checkAlloc(t ev.TB, test string, pl payload) {
 		case n < 0 || n >= A:
 			// enough budget: same outcome and same result as the unlimited run
 			if res.Status != base.Status {
-				ev.Fail(t, test, pl, "budget %d >= %d allocations needed: status %s (%s), unlimited run: %s\n--- source ---\n%s", n, A, res.Status, oneLine(res.ErrText), base.Status, clip(src))
+				failf("budget %d >= %d allocations needed: status %s (%s), unlimited run: %s\n--- source ---\n%s", n, A, res.Status, oneLine(res.ErrText), base.Status, clip(src))
 				return
 			}
 			if res.Err != nil && errors.Is(res.Err, tengo.ErrObjectAllocLimit) {
-				ev.Fail(t, test, pl, "budget %d >= %d allocations needed but the run hit the allocation limit\n--- source ---\n%s", n, A, clip(src))
+				failf("budget %d >= %d allocations needed but the run hit the allocation limit\n--- source ---\n%s", n, A, clip(src))
 				return
 			}
 			if got := bridge.DescribeGlobals(res.Globals, nil); got != wantGlobals {
-				ev.Fail(t, test, pl, "budget %d changes the result:\n unlimited: %s\n limited:   %s\n--- source ---\n%s", n, clipLine(wantGlobals), clipLine(got), clip(src))
+				failf("budget %d changes the result:\n unlimited: %s\n limited:   %s\n--- source ---\n%s", n, clipLine(wantGlobals), clipLine(got), clip(src))
 				return
 			}
 		default:
 			// 0 <= n < A: the (n+1)-th allocation must stop the run with the limit error
 			if res.Status != "runtime-error" || !errors.Is(res.Err, tengo.ErrObjectAllocLimit) {
-				ev.Fail(t, test, pl, "budget %d < %d allocations needed: expected the allocation-limit error, got status %s (%s)\n--- source ---\n%s", n, A, res.Status, oneLine(res.ErrText), clip(src))
+				failf("budget %d < %d allocations needed: expected the allocation-limit error, got status %s (%s)\n--- source ---\n%s", n, A, res.Status, oneLine(res.ErrText), clip(src))
 				return
 			}
 			if unstable == "" && want.Status == "runtime-error" && want.RErr.Kind == "alloc-limit" {
 				if got, w := bridge.DescribeGlobals(res.Globals, nil), ref.DescribeGlobals(want.Globals); got != w {
-					ev.Fail(t, test, pl, "budget %d: globals at the point of the limit error differ:\n reference: %s\n tengo:     %s\n--- source ---\n%s", n, clipLine(w), clipLine(got), clip(src))
+					failf("budget %d: globals at the point of the limit error differ:\n reference: %s\n tengo:     %s\n--- source ---\n%s", n, clipLine(w), clipLine(got), clip(src))
 					return
 				}
 			}
@@ -261,6 +275,14 @@ func checkStrLen(t ev.TB, test string, pl payload) {
 	}
 	src, mods := render(p)
 	pl.Source = src
+	// see checkAlloc: the exhaustive domain check on the failure path
+	failf := func(format string, args ...interface{}) {
+		if refx.OrderDependent(p, inputs, cfg) {
+			ev.Discard("excluded:capacity-or-map-order-dependent (exhaustive enumeration after a mismatch)")
+			return
+		}
+		ev.Fail(t, test, pl, format, args...)
+	}
 	res := bridge.Run(src, mods, inputs, bridge.Config{})
 	if res.Status == "timeout" || res.Status == "panic" {
 		ev.Fail(t, test, pl, "run ended with %s: %s\n--- source ---\n%s", res.Status, oneLine(res.ErrText), clip(src))
@@ -270,11 +292,11 @@ func checkStrLen(t ev.TB, test string, pl payload) {
 		wantLimit := want.Status == "compile-error" && want.CErr.Class == "string-limit"
 		gotLimit := res.Status == "compile-error" && strings.Contains(res.ErrText, "exceeding string size limit")
 		if wantLimit && !gotLimit {
-			ev.Fail(t, test, pl, "max=%d: the source has a string literal (or map-literal key) longer than the maximum, expected the string-limit compile error, got status %s (%s)\n--- source ---\n%s", maxLen, res.Status, oneLine(res.ErrText), clip(src))
+			failf("max=%d: the source has a string literal (or map-literal key) longer than the maximum, expected the string-limit compile error, got status %s (%s)\n--- source ---\n%s", maxLen, res.Status, oneLine(res.ErrText), clip(src))
 			return
 		}
 		if gotLimit && !wantLimit {
-			ev.Fail(t, test, pl, "max=%d: string-limit compile error although no literal exceeds the maximum (%s)\n--- source ---\n%s", maxLen, oneLine(res.ErrText), clip(src))
+			failf("max=%d: string-limit compile error although no literal exceeds the maximum (%s)\n--- source ---\n%s", maxLen, oneLine(res.ErrText), clip(src))
 			return
 		}
 		if wantLimit {
@@ -287,16 +309,16 @@ func checkStrLen(t ev.TB, test string, pl payload) {
 	limitWanted := want.Status == "runtime-error" && (want.RErr.Kind == "string-limit" || want.RErr.Kind == "bytes-limit")
 	limitGot := res.Err != nil && (errors.Is(res.Err, tengo.ErrStringLimit) || errors.Is(res.Err, tengo.ErrBytesLimit))
 	if limitWanted && !limitGot {
-		ev.Fail(t, test, pl, "max=%d: the reference hits the %s at some operation, tengo ends with status %s (%s)\n--- source ---\n%s", maxLen, want.RErr.Kind, res.Status, oneLine(res.ErrText), clip(src))
+		failf("max=%d: the reference hits the %s at some operation, tengo ends with status %s (%s)\n--- source ---\n%s", maxLen, want.RErr.Kind, res.Status, oneLine(res.ErrText), clip(src))
 		return
 	}
 	if !limitWanted && limitGot {
-		ev.Fail(t, test, pl, "max=%d: tengo reports a size-limit error (%s) although no operation of the program yields a string/bytes longer than the maximum (reference status %s)\n--- source ---\n%s", maxLen, oneLine(res.ErrText), want.Status, clip(src))
+		failf("max=%d: tengo reports a size-limit error (%s) although no operation of the program yields a string/bytes longer than the maximum (reference status %s)\n--- source ---\n%s", maxLen, oneLine(res.ErrText), want.Status, clip(src))
 		return
 	}
 	if limitWanted {
 		if want.RErr.Kind == "string-limit" && !errors.Is(res.Err, tengo.ErrStringLimit) || want.RErr.Kind == "bytes-limit" && !errors.Is(res.Err, tengo.ErrBytesLimit) {
-			ev.Fail(t, test, pl, "max=%d: wrong limit error: reference %s, tengo %s\n--- source ---\n%s", maxLen, want.RErr.Kind, oneLine(res.ErrText), clip(src))
+			failf("max=%d: wrong limit error: reference %s, tengo %s\n--- source ---\n%s", maxLen, want.RErr.Kind, oneLine(res.ErrText), clip(src))
 			return
 		}
 	}
@@ -307,7 +329,7 @@ func checkStrLen(t ev.TB, test string, pl payload) {
 	// the operation must fail not later than where the reference fails: globals as of the failure agree
 	if w, g := ref.DescribeGlobals(want.Globals), bridge.DescribeGlobals(res.Globals, nil); w != g {
 		if limitWanted {
-			ev.Fail(t, test, pl, "max=%d: globals at the limit error differ (the failing operation is not the one that first exceeds the maximum):\n reference: %s\n tengo:     %s\n--- source ---\n%s", maxLen, clipLine(w), clipLine(g), clip(src))
+			failf("max=%d: globals at the limit error differ (the failing operation is not the one that first exceeds the maximum):\n reference: %s\n tengo:     %s\n--- source ---\n%s", maxLen, clipLine(w), clipLine(g), clip(src))
 			return
 		}
 		ev.Discard("globals differ from the reference (C01's subject)")
@@ -321,7 +343,7 @@ func checkStrLen(t ev.TB, test string, pl payload) {
 	sort.Strings(names)
 	for _, k := range names {
 		if r := tooLong(res.Globals[k], maxLen, 0); r != "" {
-			ev.Fail(t, test, pl, "max=%d: after the run variable %q holds a %s: %s\n--- source ---\n%s", maxLen, k, r, clipLine(tv.Describe(res.Globals[k])), clip(src))
+			failf("max=%d: after the run variable %q holds a %s: %s\n--- source ---\n%s", maxLen, k, r, clipLine(tv.Describe(res.Globals[k])), clip(src))
 			return
 		}
 	}
